@@ -7,6 +7,8 @@ A case may carry, next to the integer bundle (data / kw,kf / tcs,tcore,tf), the 
           construction, as a user or an earlier in-place operation may leave them): C-contiguous copies / non-contiguous views
   dtype : numpy dtype name of a dense tensor's data (integer dtypes keep their dtype inside ttb.tensor)
   between : [op-name] — for op seq: operation applied to the SAME object between two nvecs calls
+  cfmask : [bool] — representations ttensor_cf / ttensor_spcf (wave 5): factor matrix m is held as a scipy.sparse.coo_matrix where
+          cfmask[m] (the ttensor constructor admits coo factors; ttensor.nvecs has its own branches for them)
 The tensor the object denotes is  (integer bundle) * 2**(exp + sum(fexp));  its mode-n Gram matrix is the integer Gram matrix times
 4**(exp + sum(fexp)); eigenvectors do not depend on the scale."""
 import math
@@ -90,18 +92,27 @@ def mk(ttb, np, a, rp):
             K.weights = relayout(np, K.weights, "view" if lay == "view" else "F")
         return K
     cs = a["tcs"]
-    if rp == "ttensor_sp":       # sparse core, dense factors
+    if rp in ("ttensor_sp", "ttensor_spcf"):       # sparse core
         subs, vals = tgen.dense_to_sparse(cs, a["tcore"], random.Random(a["sseed"]), a["order"])
         core = ttb.sptensor(np.array(subs, dtype=int).reshape((len(subs), d)),
                             np.array([_ld(v, e) for v in vals], dtype=float).reshape((len(vals), 1)), tuple(cs), copy=True)
     else:
         core = ttb.tensor(np.array([_ld(v, e) for v in a["tcore"]], dtype=float).reshape(tuple(cs), order="F"), tuple(cs), copy=True)
     fs = [np.array([[_ld(x, fe[n]) for x in row] for row in a["tf"][n]], dtype=float).reshape((shape[n], cs[n])) for n in range(d)]
+    if rp in ("ttensor_cf", "ttensor_spcf"):
+        import scipy.sparse
+        mask = a.get("cfmask") or [True] * d
+        fs = [scipy.sparse.coo_matrix(f) if mask[n] else f for n, f in enumerate(fs)]
     T = ttb.ttensor(core, fs, copy=True)
+    if rp in ("ttensor_cf", "ttensor_spcf"):
+        import scipy.sparse
+        if not all(scipy.sparse.issparse(T.factor_matrices[n]) == bool((a.get("cfmask") or [True] * d)[n]) for n in range(d)):
+            raise AssertionError("coo factors not kept")
     if lay != "F":
         for n in range(d):
-            T.factor_matrices[n] = relayout(np, T.factor_matrices[n], lay)
-        if rp == "ttensor_sp":
+            if isinstance(T.factor_matrices[n], np.ndarray):
+                T.factor_matrices[n] = relayout(np, T.factor_matrices[n], lay)
+        if rp in ("ttensor_sp", "ttensor_spcf"):
             T.core.subs = relayout(np, T.core.subs, lay)
             T.core.vals = relayout(np, T.core.vals, lay)
         else:
